@@ -145,8 +145,11 @@ def r17_3(ctx):
             okw = False
     ctx.check(okw, w.fq, "gutter width", w.where, "gutter wide enough for the largest line number", "gutter width is no longer derived from start_line + number of newlines")
     # text -> lines: split on newline of the highlighted text, after removing one trailing newline
-    src = norm(f.node)
-    ctx.check("text = self.highlight(code, self.line_range)" in src and "lines = text.split('\\n')" in src, f.fq, "lines = text.split('\\n')", f.where, "display lines are the newline-split of the highlighted code", "display lines are not the newline split of the highlighted text")
+    hl_vars = {norm(x.targets[0]) for x in walk_local(f.node) if isinstance(x, ast.Assign) and isinstance(x.value, ast.Call) and norm(x.value.func) == "self.highlight" and len(x.value.args) == 2 and norm(x.value.args[1]) == "self.line_range"}
+    split_ok = any(isinstance(x, ast.Assign) and isinstance(x.value, ast.Call) and isinstance(x.value.func, ast.Attribute) and x.value.func.attr == "split" and norm(x.value.func.value) in hl_vars
+                   and len(x.value.args) == 1 and isinstance(x.value.args[0], ast.Constant) and x.value.args[0].value == "\n" and all(k.arg == "allow_blank" for k in x.value.keywords)
+                   for x in walk_local(f.node))
+    ctx.check(bool(hl_vars) and split_ok, f.fq, "lines = text.split('\\n')", f.where, "display lines are the newline-split of the highlighted code", "display lines are not the newline split of the highlighted text")
 
 
 def r17_4(ctx):
@@ -298,4 +301,37 @@ def r17_8(ctx):
         ctx.check(ok, f.fq, f"filename={norm(fn_) if fn_ is not None else None}", f"{m.relpath}:{c.lineno}", "the file is that of the same frame's code object", "Frame.filename is not taken from the walked frame's code object")
 
 
-RULES = [r17_1, r17_2, r17_3, r17_4, r17_5, r17_7, r17_8]
+def r17_9(ctx):
+    ctx.rule("R17.9", "a line range that ends on a blank line keeps that line: Syntax.highlight stops after the newline of the last selected line, so after remove_suffix('\\n') the text of a range whose last line is blank still ends with a separator; the split whose result is sliced by the range in Syntax.__rich_console__ must therefore keep a trailing blank line (allow_blank) whenever a range is in force - Text.split drops it by default and the range (1, 3) of 'a\\nb\\n\\nc' would show two lines")
+    f = ctx.repo.fn("syntax:Syntax.__rich_console__")
+    m = f.module
+    from ..astutil import inline as _inl, single_defs as _sdf
+    # the slice by the range:  lines = lines[<offset>:<end>]  and the split that defines `lines`
+    slices = [x for x in walk_local(f.node) if isinstance(x, ast.Assign) and isinstance(x.value, ast.Subscript) and isinstance(x.value.slice, ast.Slice) and isinstance(x.value.value, ast.Name) and x.value.slice.upper is not None and "end" in norm(x.value.slice.upper)]
+    if len(slices) != 1:
+        raise AnalysisError("Syntax.__rich_console__: the slice of the lines by the range (`lines[offset:end_line]`) was not found")
+    var = slices[0].value.value.id
+    splits = [x for x in walk_local(f.node) if isinstance(x, ast.Assign) and norm(x.targets[0]) == var and isinstance(x.value, ast.Call) and isinstance(x.value.func, ast.Attribute) and x.value.func.attr == "split" and x.lineno < slices[0].lineno]
+    if len(splits) != 1:
+        raise AnalysisError(f"Syntax.__rich_console__: expected one `{var} = <text>.split(...)` before the range slice")
+    sp = splits[0]
+    # premise: the text is stripped of exactly one trailing newline before the split
+    stripped = any(isinstance(c, ast.Call) and isinstance(c.func, ast.Attribute) and c.func.attr in ("remove_suffix", "rstrip") for c in walk_local(f.node))
+    if not stripped:
+        raise AnalysisError("Syntax.__rich_console__: the trailing newline is no longer removed with remove_suffix; the premise of this rule changed")
+    ab = kwarg(sp.value, "allow_blank")
+    where = f"{m.relpath}:{sp.lineno}"
+    if ab is None:
+        ctx.violation(f.fq, short(sp), where, f"`{short(sp)}` drops a trailing blank line (Text.split's default) although the lines are then selected by the range: a range whose last line is blank loses that line - Syntax('a\\nb\\n\\nc', 'python', line_numbers=True, line_range=(1, 3)) shows lines 1-2 only")
+        return
+    v = norm(_inl(ab, _sdf(f.node)))
+    ok = v in ("True", "bool(self.line_range)", "self.line_range is not None", "bool(line_range)") or "line_range" in v
+    if isinstance(ab, ast.Constant) and ab.value is False:
+        ctx.violation(f.fq, short(sp), where, "allow_blank=False: a range whose last line is blank loses that line")
+        return
+    if not ok:
+        raise AnalysisError(f"Syntax.__rich_console__: allow_blank=`{v}` - cannot tell whether it is on when a range is in force")
+    ctx.ok(where, "the split that feeds the range slice keeps a trailing blank line when a range is in force", f.fq)
+
+
+RULES = [r17_1, r17_2, r17_3, r17_4, r17_5, r17_7, r17_8, r17_9]
